@@ -48,6 +48,11 @@ CHECKS = {
             "Random words with 1..3 substitutions in 5 contexts, 8 inner-command kinds and 17 output classes are executed and compared with prefix+output-minus-trailing-newlines+suffix; stderr pass-through, exactly-once and shell state are checked on every run.",
             "unquoted results compared modulo blank/newline runs",
             "DESIGN.md 3 C11"),
+    "C13": ("exploration",
+            "runtime monitoring: observer records argv, identity of its fds 0/1/2 and its parent; directory listing before/after; any further helper record is an extra command",
+            "The finite product value-class x delivery ($V, ${V}, assigned, $(), backquotes, * match) x quoting x position x neighbouring-word tag is enumerated completely (6.8k executions); thorough adds 20k random operator mixes.",
+            "unquoted results compared modulo blank runs",
+            "DESIGN.md 3 C13"),
 }
 
 NOT_YET = "check not built yet (work in progress); runtime monitoring is applicable and planned, see DESIGN.md section 3"
